@@ -187,7 +187,9 @@ func newFixture(kinds []string, mutate func(cfg *router.Config)) (*fixture, erro
 		return nil, err
 	}
 	f.v = v
-	v.SetUpstream("u0", f.up)
+	if cfg.Upstreams[0].Addr == "udp://127.0.0.1:9" { // the placeholder: the scripted in-process upstream takes its place
+		v.SetUpstream("u0", f.up)
+	}
 	f.h1 = &http.Client{Timeout: 8 * time.Second, Transport: &http.Transport{MaxIdleConnsPerHost: 64}}
 	f.h2 = &http.Client{Timeout: 8 * time.Second, Transport: &http2.Transport{TLSClientConfig: &tls.Config{InsecureSkipVerify: true}}}
 	return f, nil
